@@ -2,7 +2,15 @@
 PROPERTY = "C11"
 LEVEL = "proof"
 FUNCTIONS = ['uxarray.grid.grid.Grid.get_ball_tree',
-    'uxarray.grid.grid.Grid.get_kd_tree']
+    'uxarray.grid.grid.Grid.get_kd_tree',
+    'uxarray.grid.neighbors.BallTree.coordinates.setter@value=nodes',
+    'uxarray.grid.neighbors.BallTree.coordinates.setter@value=face centers',
+    'uxarray.grid.neighbors.BallTree.coordinates.setter@value=edge centers',
+    'uxarray.grid.neighbors.BallTree.coordinates.setter@value=bogus',
+    'uxarray.grid.neighbors.KDTree.coordinates.setter@value=nodes',
+    'uxarray.grid.neighbors.KDTree.coordinates.setter@value=face centers',
+    'uxarray.grid.neighbors.KDTree.coordinates.setter@value=edge centers',
+    'uxarray.grid.neighbors.KDTree.coordinates.setter@value=bogus']
 STANDINS = ["neighbours"]
 ASSUMPTIONS = []
 EXPLANATION = ""
